@@ -29,9 +29,13 @@ pub enum Ending {
     OversizedPartial,
     IdleTimeout,
     Rst,
+    /// header + part of a within-limit body, then silence: the idle timeout must end it
+    MidBodySilent,
+    /// header + part of an oversized body, then silence
+    OversizedPartialSilent,
 }
 
-const ENDINGS: [Ending; 10] = [
+const ENDINGS: [Ending; 12] = [
     Ending::ClientClose,
     Ending::Quit,
     Ending::QuitQ,
@@ -42,9 +46,11 @@ const ENDINGS: [Ending; 10] = [
     Ending::OversizedPartial,
     Ending::IdleTimeout,
     Ending::Rst,
+    Ending::MidBodySilent,
+    Ending::OversizedPartialSilent,
 ];
 
-pub const RULE_C17: &str = "a case is one scenario on a fresh server with connection limit 1..4: a sequence of 3*limit..6*limit connection lifecycles, each ended in one of ten ways (client close, quit, quitq, disconnect mid-header / mid-body, invalid magic, oversized item then close, oversized item cut in its body, idle timeout, RST; waiting connections may also close or reset before they are served); after every step the monitor demands: no more than `limit` connections have a noop answered while open, free permits (cfg(memcrs_verif) accessor) == limit - open served connections at quiescence (server-side endings are checked while the client socket is still open), a waiting connection is picked up after a slot frees, and at the end `limit` fresh connections are served and one more is not; non-trivial when the limit was reached at least once; distinct by the sequence of ending kinds";
+pub const RULE_C17: &str = "a case is one scenario on a fresh server with connection limit 1..4: a sequence of 3*limit..6*limit connection lifecycles, each ended in one of twelve ways (client close, quit, quitq, disconnect mid-header / mid-body, invalid magic, oversized item then close, oversized item cut in its body, idle timeout while idle / inside a body / inside an oversized body, RST; waiting connections may also close or reset before they are served); after every step the monitor demands: no more than `limit` connections have a noop answered while open, free permits (cfg(memcrs_verif) accessor) == limit - open served connections at quiescence (server-side endings are checked while the client socket is still open), a waiting connection is picked up after a slot frees, and at the end `limit` fresh connections are served and one more is not; non-trivial when the limit was reached at least once; distinct by the sequence of ending kinds";
 
 struct Slot {
     cli: Cli,
@@ -240,10 +246,17 @@ fn scenario_c17(ctx: &Ctx, case: u64, local: &mut BTreeMap<String, u64>) -> (Vec
                 std::thread::sleep(Duration::from_millis(10));
                 drop(c);
             }
-            Ending::IdleTimeout => {
+            Ending::IdleTimeout | Ending::MidBodySilent | Ending::OversizedPartialSilent => {
+                if kind == Ending::MidBodySilent {
+                    let f = wire::store(op::SET, b"k", &[b'v'; 200], 0, 0, 1, 0).encode();
+                    let _ = c.s.write_all(&f[..24 + 50]);
+                } else if kind == Ending::OversizedPartialSilent {
+                    let f = wire::store(op::SET, b"big", &vec![b'x'; 5000], 0, 0, 0x77, 0).encode();
+                    let _ = c.s.write_all(&f[..24 + 2000]);
+                }
                 // stay silent; keep the others alive meanwhile
                 let t0 = Instant::now();
-                while t0.elapsed() < Duration::from_millis(2600) && !conn_log().get(key).exited {
+                while t0.elapsed() < Duration::from_millis(3200) && !conn_log().get(key).exited {
                     for s in served.iter_mut() {
                         opq += 1;
                         let _ = noop_answered(&mut s.cli, opq, Duration::from_secs(2));
@@ -430,7 +443,10 @@ fn build_stream(pfx: &str, variant: u64) -> (Vec<Req>, Vec<u8>, Vec<u8>) {
         Req { frame: wire::get(op::GETK, &log, 5), mark: Mark::None, loud: true },
         Req { frame: wire::store(op::SETQ, &k(6), &vec![b'y'; 300], 0, 0, 6, 0), mark: Mark::SetKey(k(6)), loud: false },
         Req { frame: wire::counter(op::INCRQ, &cnt, 10, 100, 0, 7, 0), mark: Mark::Incr(10), loud: false },
-        Req { frame: wire::concat(op::APPEND, &log, b"e", 8, 0), mark: Mark::Append(b'e'), loud: true },
+        // larger than the item limit of the fault servers (2048): refused with 0x03, leaves no mark, and a
+        // cut inside its body puts the server into its discard loop
+        Req { frame: wire::store(op::SET, &k(9), &vec![b'z'; 2600], 0, 0, 8, 0), mark: Mark::None, loud: true },
+        Req { frame: wire::concat(op::APPEND, &log, b"e", 9, 0), mark: Mark::Append(b'e'), loud: true },
     ];
     // variants reorder / drop a few so that several streams are covered
     match variant % 4 {
@@ -493,6 +509,17 @@ pub fn run_c18(ctx: &Ctx) -> i32 {
         for o in (0..=len).step_by(step) {
             scen.push((variant, o, Fault::Silence));
         }
+        // silence inside the body of the oversized request (the server is in its discard loop then)
+        let mut off = 0;
+        for r in &reqs {
+            let l = 24 + r.frame.body.len();
+            if r.frame.body.len() > 2048 {
+                for d in [24usize, 25, 24 + 1000, l - 1] {
+                    scen.push((variant, off + d, Fault::Silence));
+                }
+            }
+            off += l;
+        }
     }
     let total = scen.len() as u64;
     let next = AtomicU64::new(0);
@@ -501,7 +528,7 @@ pub fn run_c18(ctx: &Ctx) -> i32 {
             let (next, shared, scen) = (&next, &shared, &scen);
             s.spawn(move || {
                 let flavour = if w % 2 == 1 && ctx.thorough() { Some(2) } else { None };
-                let srv = match Server::start(SrvCfg { idle_s: 1, workers: flavour, conn_limit: 64, ..Default::default() }) {
+                let srv = match Server::start(SrvCfg { idle_s: 1, workers: flavour, conn_limit: 64, item_limit: 2048, ..Default::default() }) {
                     Ok(s) => s,
                     Err(_) => return,
                 };
@@ -570,14 +597,24 @@ pub fn run_c18(ctx: &Ctx) -> i32 {
                         Err(_) => continue,
                     };
                     let key = f.port;
+                    // every other close / half-close is fired straight after the write, so that the data and
+                    // the FIN can be in the server's socket queue together when it first looks
+                    let immediate = matches!(fault, Fault::Close | Fault::HalfClose) && c % 2 == 1;
                     if !sent.is_empty() {
-                        f.send_chunk(&sent);
+                        if immediate {
+                            use std::io::Write;
+                            let _ = f.s.write_all(&sent);
+                            f.sent += sent.len() as u64;
+                        } else {
+                            f.send_chunk(&sent);
+                        }
                     }
                     let mut faulty_rx: Vec<u8> = vec![];
                     let mut faulty_end = End::Open;
                     match fault {
                         Fault::Close => {
-                            f.wait_quiescent(Duration::from_secs(2));
+                            // (not immediate: send_chunk has waited until the server took every byte out of its
+                            // socket, so a reset provoked by unread responses cannot discard request bytes)
                             drop(f);
                         }
                         Fault::HalfClose => {
@@ -588,9 +625,6 @@ pub fn run_c18(ctx: &Ctx) -> i32 {
                             drop(f);
                         }
                         Fault::Reset => {
-                            if (c % 2) == 0 {
-                                f.wait_quiescent(Duration::from_millis(500));
-                            }
                             f.reset();
                         }
                         Fault::Silence => {
@@ -639,7 +673,15 @@ pub fn run_c18(ctx: &Ctx) -> i32 {
                         viols.push(Viol::new(&["C18"], "observer-disturbed", "the observer connection stopped answering".into()));
                     } else {
                         // which prefix lengths explain the marks?
-                        let candidates: Vec<usize> = if fault == Fault::Reset { (0..=complete).collect() } else { vec![complete] };
+                        // an immediate close() with unread responses in the client's receive queue is answered by
+                        // the kernel with RST, which may discard request bytes the server had not read yet: the
+                        // same "prefix, each at most once" rule as for an abortive reset applies (TCP, not memcrs)
+                        // (also for a close() after the server has read everything: a failed response write to the
+                        // reset peer ends the connection with requests still buffered. The orderly close, where
+                        // every completed request must run exactly once, is the half-close fault: FIN, then the
+                        // client reads to the end.)
+                        let prefix_rule = fault == Fault::Reset || fault == Fault::Close;
+                        let candidates: Vec<usize> = if prefix_rule { (0..=complete).collect() } else { vec![complete] };
                         let mut explained = false;
                         for n in &candidates {
                             let (elog, ecnt, ekeys) = expected(&reqs, *n);
@@ -674,7 +716,7 @@ pub fn run_c18(ctx: &Ctx) -> i32 {
                                     invalid_at.map(|j| format!(" before the invalid frame #{}", j)).unwrap_or_default(),
                                     String::from_utf8_lossy(&elog),
                                     ecnt,
-                                    if fault == Fault::Reset { " (or a prefix of that)" } else { "" },
+                                    if prefix_rule { " (or a prefix of that)" } else { "" },
                                     logv.as_ref().map(|v| String::from_utf8_lossy(v).to_string()),
                                     cntv
                                 ),
@@ -687,7 +729,10 @@ pub fn run_c18(ctx: &Ctx) -> i32 {
                             Err(e) => viols.push(Viol::new(&["C11", "C18"], "resp-grammar", e)),
                             Ok(rs) => {
                                 let want: Vec<u32> = reqs[..complete].iter().filter(|r| r.loud).map(|r| r.frame.opaque).collect();
-                                let got: Vec<u32> = rs.iter().map(|r| r.opaque).collect();
+                                // an incomplete oversized request may be refused ('too large') before its body has
+                                // arrived in full: a refusal is an answer, not an execution
+                                let next_opq = reqs.get(complete).map(|r| r.frame.opaque);
+                                let got: Vec<u32> = rs.iter().filter(|r| !(Some(r.opaque) == next_opq && crate::frame::is_refusal(Some(r.status)))).map(|r| r.opaque).collect();
                                 *local.entry("faulty_response_streams_checked".into()).or_insert(0) += 1;
                                 if got != want {
                                     viols.push(Viol::new(&["C18", "C12"], "responses-of-completed-prefix", format!("{:?} at {}: responses for opaques {:?}, expected one per loud completed request {:?}", fault, off, got, want)));
